@@ -155,7 +155,8 @@ type Val struct {
 	StreamVer int
 	Payload   []byte // kind restored: the RESTORE payload
 	TTL     int64  // milliseconds handed to RESTORE / PEXPIRE; 0 = none
-	ExpAt   int64 // absolute expiry (target clock at the entry's first request + TTL), ms; 0 = none
+	ExpAt   int64 // absolute expiry the request established (target clock at the request + TTL), ms; 0 = none
+	Allow   int64 // ms the entry's own requests had taken when the expiry was set (the lateness C03 tolerates)
 	Idle    string
 	Freq    string
 }
@@ -298,6 +299,9 @@ func (c *Conn) sinceEntryStart(key string) int64 {
 			return "", "", false
 		}
 		cmd, k = strings.ToLower(f[0]), f[1]
+		if cmd == "pexpireat" {
+			cmd = "pexpire"
+		}
 		if cmd == "xgroup" && len(f) > 2 {
 			k = f[2]
 		}
@@ -465,18 +469,36 @@ func (c *Conn) apply(cmd string, args []interface{}) (interface{}, error) {
 			return nil, RedisError("ERR value is not an integer or out of range")
 		}
 		v.TTL = n
-		v.ExpAt = c.T.now() - c.T.TickMs*c.sinceEntryStart(key(0)) + n
+		v.ExpAt = c.T.now() + n
+		v.Allow = c.T.TickMs * c.sinceEntryStart(key(0))
+		return int64(1), nil
+	case "pexpireat":
+		v := d[key(0)]
+		if v == nil {
+			return int64(0), nil
+		}
+		n, err := strconv.ParseInt(key(1), 10, 64)
+		if err != nil {
+			return nil, RedisError("ERR value is not an integer or out of range")
+		}
+		v.ExpAt, v.TTL = n, n-c.T.now()
+		if v.TTL <= 1 {
+			v.TTL = 1 // already past: gone before the next request
+		}
+		v.Allow = c.T.TickMs * c.sinceEntryStart(key(0))
 		return int64(1), nil
 	case "restore":
 		if len(args) < 3 {
 			return nil, RedisError("ERR wrong number of arguments")
 		}
-		replace := false
+		replace, absttl := false, false
 		nv := &Val{Kind: "restored", Payload: append([]byte{}, argBytes(args[2])...)}
 		for i := 3; i < len(args); i++ {
 			switch strings.ToUpper(key(i)) {
 			case "REPLACE":
 				replace = true
+			case "ABSTTL":
+				absttl = true
 			case "IDLETIME":
 				i++
 				nv.Idle = key(i)
@@ -500,7 +522,15 @@ func (c *Conn) apply(cmd string, args []interface{}) (interface{}, error) {
 		}
 		nv.TTL = n
 		if n != 0 {
-			nv.ExpAt = c.T.now() - c.T.TickMs*c.sinceEntryStart(key(0)) + n
+			nv.ExpAt = c.T.now() + n
+			if absttl {
+				nv.ExpAt = n
+				nv.TTL = n - c.T.now()
+				if nv.TTL <= 1 {
+					nv.TTL = 1
+				}
+			}
+			nv.Allow = c.T.TickMs * c.sinceEntryStart(key(0))
 		}
 		d[key(0)] = nv
 		return "OK", nil
